@@ -34,9 +34,10 @@ CLAIMS = {
    technique="Coq proof by invariant over all operation lists (lifetime invariant, dead-stays-dead) + differential correspondence of the full record stream",
    text="Theorems C04_* (props/C04.v): lifetime invariant of every reachable state; resting volume positive; the clock step to t reports and removes exactly the "
         "resting orders with accepted time+ttl+1 = t; every fill names two orders resting at that moment within their lifetimes; no fill after an accepted cancel "
-        "or after a reported expiry, whatever follows; accepted ids are fresh consecutive integers, re-submission / foreign market refused. The volume-accounting identity "
-        "over whole lifetimes is checked by the monitor on every real history and by the correspondence of all Order/Cancel/Execution/Expiration records "
-        "(its closed-form theorem is not yet proved: partial).",
+        "or after a reported expiry, whatever follows; accepted ids are fresh consecutive integers, re-submission / foreign market refused. NOTHING IS LOST (theories/MarketAcct.v, "
+        "an invariant over the record stream for all operation lists): accepted volume = sum of fills + resting volume + volume reported by the FIRST terminal event, a resting "
+        "order has had no terminal event, and after the first terminal event nothing rests and the fills sum to accepted - reported. The same identity is checked by the monitor on "
+        "every real history and the full Order/Cancel/Execution/Expiration record stream is compared with the model by the correspondence.",
    note=COMMON_NOTE),
  "C06": dict(level="proof", suites=["M"], design="5/C06",
    technique="Coq proof of the frame property over all operation lists + differential correspondence incl. storage chunk crossings",
